@@ -46,6 +46,8 @@ enum CType {
 #[derive(Clone, Copy, Debug, PartialEq, Eq, PartialOrd, Ord, Hash)]
 enum Ctx {
     CallT1,
+    /// another call of the same contract T1 (function `withdraw`): same context type as CallT1
+    CallT1b,
     CallT2,
     CreateW,
     /// creation (with constructor) of a wasm hash no rule names: only Default rules apply
@@ -88,6 +90,11 @@ enum Sig {
     Invalid,
     /// external signers only: the verifier contract fails instead of returning false
     Trap,
+}
+
+thread_local! {
+    /// which scripted policies are in only-transfer mode during the current group of probes
+    static ONLY_TRANSFER: std::cell::Cell<[bool; 2]> = const { std::cell::Cell::new([false, false]) };
 }
 
 struct Acc {
@@ -137,6 +144,7 @@ impl Inst {
         let e = &self.e;
         match c {
             Ctx::CallT1 => Context::Contract(ContractContext { contract: self.t1.clone(), fn_name: Symbol::new(e, "transfer"), args: (1u32,).into_val(e) }),
+            Ctx::CallT1b => Context::Contract(ContractContext { contract: self.t1.clone(), fn_name: Symbol::new(e, "withdraw"), args: (2u32,).into_val(e) }),
             Ctx::CallT2 => Context::Contract(ContractContext { contract: self.t2.clone(), fn_name: Symbol::new(e, "other"), args: SVec::new(e) }),
             Ctx::CreateW => Context::CreateContractHostFn(CreateContractHostFnContext {
                 executable: ContractExecutable::Wasm(self.wasm.clone()),
@@ -211,8 +219,11 @@ impl Acc {
     /// newest first, then unexpired Default rules, newest first; the first whose requirement the
     /// supplied signers meet wins.
     fn resolve(rules: &[Rule], ctx: Ctx, supplied: &BTreeSet<usize>, ledger: u32, can: [bool; 2]) -> Option<(u32, BTreeSet<usize>, BTreeSet<usize>)> {
+        let only_t = ONLY_TRANSFER.with(|c| c.get());
+        // a policy in only-transfer mode accepts nothing but calls of a function named `transfer`
+        let can = [can[0] && !(only_t[0] && ctx != Ctx::CallT1), can[1] && !(only_t[1] && ctx != Ctx::CallT1)];
         let want = match ctx {
-            Ctx::CallT1 => Some(CType::CallT1),
+            Ctx::CallT1 | Ctx::CallT1b => Some(CType::CallT1),
             Ctx::CallT2 | Ctx::CreateOther => None,
             Ctx::CreateW => Some(CType::CreateW),
         };
@@ -432,6 +443,35 @@ impl Acc {
                         run(&[a, b], *sigs, i.base, *can, *refuse)?;
                     }
                 }
+            }
+        }
+        // context-dependent policies: two calls of the SAME contract in one batch, of which a policy in
+        // only-transfer mode accepts one and refuses the other (both orders); every context must be put
+        // to the policies of its rule
+        if !pols_present.is_empty() {
+            self.set_env(i, i.base, [true, true], [false, false]);
+            for only in [[true, false], [false, true], [true, true]] {
+                if (only[0] && !pols_present.contains(&0)) || (only[1] && !pols_present.contains(&1)) {
+                    continue;
+                }
+                for p in 0..2 {
+                    call_mocked(&i.e, &i.pol[p], "set_only_transfer", (only[p],).into_val(&i.e)).expect("only-transfer");
+                }
+                ONLY_TRANSFER.with(|c| c.set(only));
+                let mut r = Ok(());
+                'outer: for pair in [[Ctx::CallT1, Ctx::CallT1b], [Ctx::CallT1b, Ctx::CallT1], [Ctx::CallT1, Ctx::CallT1]] {
+                    for sigs in [[Sig::Valid, Sig::Valid, Sig::Valid, Sig::Absent], [Sig::Absent; 4]] {
+                        r = run(&pair, sigs, i.base, [true, true], [false, false]);
+                        if r.is_err() {
+                            break 'outer;
+                        }
+                    }
+                }
+                ONLY_TRANSFER.with(|c| c.set([false, false]));
+                for p in 0..2 {
+                    call_mocked(&i.e, &i.pol[p], "set_only_transfer", (false,).into_val(&i.e)).expect("only-transfer off");
+                }
+                r?;
             }
         }
         self.set_env(i, i.base, [true, true], [false, false]);
